@@ -665,9 +665,15 @@ func SimCert() tls.Certificate {
 
 // The name of a node is added to a process-wide atom cache (edf.RegisterAtom) when the node starts,
 // and the handshake of every later connection carries that cache: a name first used in the middle
-// of a run would make the first run of a process differ from all later ones.
+// of a run would make the first run of a process differ from all later ones - and a run found in a
+// worker that has executed other cases before (say with a local node "c17@sim") would not replay in a
+// fresh process. StartLocalNode refuses names that are not listed here.
+var knownNodeNames = map[string]bool{}
+
 func init() {
-	for _, n := range []gen.Atom{"a@h1", "b@h2", "c@h3", "d@h4"} {
+	for _, n := range []gen.Atom{"a@h1", "b@h2", "c@h3", "d@h4", "evil@h9",
+		"a@sim", "c02@sim", "c03@sim", "c04@sim", "c06@sim", "c07@sim", "c10@sim", "c17@sim", "c19@sim", "c20@sim", "sup@sim", "t@sim"} {
 		edf.RegisterAtom(n)
+		knownNodeNames[string(n)] = true
 	}
 }
